@@ -1,7 +1,9 @@
 //! Driver for the gossipsub ROUTER family (behaviour.rs / backoff.rs / handler.rs):
 //!   router  ...   C28 C29 C35 C36 (+ router level of C32): one real Behaviour, all entry points
 //!   backoff ...   C32: the real BackoffStorage under the verif clock
+//!   net     ...   C27: up to a dozen real Behaviours, the driver is the network
 mod backoff;
+mod net;
 mod router;
 
 fn main() {
@@ -10,6 +12,7 @@ fn main() {
     match a.mode.as_str() {
         "router" => router::main(&rest),
         "backoff" => backoff::main(&rest),
+        "net" => net::main(&rest),
         m => {
             eprintln!("unknown mode {m}");
             std::process::exit(2)
